@@ -13,23 +13,24 @@ CONSTANTS
  MaxJoined = 10
  MaxEarly = 3
  Tries = 2
- NextHop = 4 Unstable = 24 CacheTO = 4 Inactive = 8 RemoveDelay = 2 SweepEvery = 2 PingEvery = 1000 MaxTime = 1000
+ NextHop = 4 Unstable = 24 CacheTO = 4 Inactive = 8 RemoveDelay = 2 SweepEvery = 2 PingEvery = 3 MaxTime = 1000
  CreateGuard = TRUE
- MaxCircuits = 1 MaxData = 1 MaxLoss = 2 MaxDup = 0 MaxAdv = 0 MaxNow = 40
- Goals = {2}
+ MaxCircuits = 1 MaxData = 0 MaxLoss = 0 MaxDup = 0 MaxAdv = 1 MaxNow = 4
+ Goals = {1}
  Origins = {o}
- AdvKinds = {}
+ AdvKinds = {"mangle"}
  NodeRank <- RankDef
  AdvSrcs = {adv}
  TrackWire = FALSE
  UseIds = FALSE
- NodeTeardown = TRUE
- MayVanish = TRUE
+ NodeTeardown = FALSE
+ MayVanish = FALSE
  SweepRelays = TRUE
  Aead = TRUE
  CheckIdent = TRUE
  AutoTimers = TRUE
 INVARIANT TypeOK
-INVARIANT Reclaimed
-INVARIANT RelayEarlyBudget
-PROPERTY JoinLimit
+INVARIANT NoForeignKey
+INVARIANT KeyAgreement
+PROPERTY AnswerMustMatch
+PROPERTY EntriesStable
